@@ -6,7 +6,8 @@
    characters and every pair of one-character entries; Set/Delete/round-trip histories of <= 2 (thorough 3) operations (NoDupKeys, SetReplaces,
    DeleteRemoves, HeaderClean, OriginalUntouched); the extraction family (member classes alone and between
    valid members, limits 180 / 4096 / 8192 below-at-above): ExtractValid.  spec/Composite.tla: every ordered
-   subset of {tc, bag, b3, b3m, jg} x every carrier/context shape: LastValidWins, EveryPartWrote, ...
+   subset of {tc, bag, b3, b3m, jg} x every carrier (each wire format independently present) / context shape:
+   LastValidWins, CrossFormatApplied, EveryPartWrote, ...
 2. spec -> code: every generated behaviour is replayed on the real Baggage / BaggagePropagator /
    CompositePropagator (several concretisations: real characters per class, real sizes around the limits).
 3. code -> spec: random Set/Delete/Inject+Extract histories of the real classes validated by BaggageTrace.tla.
@@ -152,7 +153,7 @@ def baggage_runs(ctx):
 
 def composite_runs(ctx):
     behs = []
-    laws = "LastValidWins EmptyIsIdentity NothingValidUntouched EveryPartWrote"
+    laws = "LastValidWins CrossFormatApplied EmptyIsIdentity NothingValidUntouched EveryPartWrote"
     for menu in ("extract", "inject"):
         c = _ccfg(ctx, "comp-%s.cfg" % menu, True, menu, laws + " EmitAll")
         r = tlc.tlc("Composite", c, rundir=ctx.rundir.path, workers=1, timeout_s=600, tag="comp" + menu)
@@ -161,9 +162,15 @@ def composite_runs(ctx):
         b = _uniq(r, "comp-" + menu)
         ctx.extra["behaviours_generated"]["comp-" + menu] = len(b)
         behs += b
-    if ctx.extra["behaviours_generated"]["comp-extract"] != 326 * 81 * 2:
+    if ctx.extra["behaviours_generated"]["comp-extract"] != 326 * 216 * 2:
         raise Broken("Composite extract family has %d scenarios, expected %d" % (
-            ctx.extra["behaviours_generated"]["comp-extract"], 326 * 81 * 2))
+            ctx.extra["behaviours_generated"]["comp-extract"], 326 * 216 * 2))
+    # vacuity: the cross-format carriers (a B3 part facing only the OTHER B3 format) are in the family
+    cross = sum(1 for b in behs if b["src"] == "comp-extract" and b["steps"][0]["exp"]["span"] == "b3xS"
+                and "b3m" not in b["steps"][0]["parts"])
+    ctx.extra["composite_cross_format_scenarios"] = cross
+    if not cross:
+        raise Broken("vacuity: no scenario where B3Propagator alone must read the X-B3-* headers")
     # teeth: the order of the parts must be observable in the model
     c = _ccfg(ctx, "comp-teeth.cfg", False, "extract", "OrderIrrelevant")
     r = tlc.tlc("Composite", c, rundir=ctx.rundir.path, workers=2, timeout_s=300, tag="compteeth")
@@ -324,7 +331,8 @@ def run(ctx):
         "memory safety of extraction is covered only as a by-product: ASan/UBSan on every model-generated header and on seeded "
         "arbitrary byte strings, carriers return exactly-sized views without NUL terminator",
         "Composite.tla models the parts abstractly (valid header -> the part installs its identity, absent/invalid -> context "
-        "unchanged, as pinned by C09/C16); b3 and b3multi always see the same header status",
+        "unchanged, as pinned by C09/C16); carriers hold every wire format independently of the configured parts; both B3 parts read "
+        "both B3 formats, single header first (C16); the shape b3 invalid + X-B3-* valid is not generated",
     ]
     ctx.extra["rule"] = (
         "states/transitions: TLC on Baggage.tla / Composite.tla (exhaustive + generation + trace validation); traces_validated: "
